@@ -49,9 +49,17 @@ def frame_rule(ctx):
     I = Interp(repo)
     I.call_hook = hook
     beam_cls = repo.cls(BEAM_MODEL)
-    beam = XObj(beam_cls, dict(line=SimpleNamespace(unitVector=XArray((3,), i)), yAxis=XArray((3,), j), name="b0"))
+    i3, j3 = i, j
     for dof_n, nPe in ((3, 2), (6, 2)):
         r.instance(fn=fP.qualname)
+        if dof_n == 3:
+            # plane frame: both axes in the (x, y) plane; the third axis must still be i x j (right-handed: the sign of
+            # the rotation dof follows the orientation of the member)
+            i, j = [i3[0], i3[1], Poly()], [j3[0], j3[1], Poly()]
+        else:
+            i, j = i3, j3
+        k = cross(i, j)
+        beam = XObj(beam_cls, dict(line=SimpleNamespace(unitVector=XArray((3,), i)), yAxis=XArray((3,), j), name="b0", dim=2 if dof_n == 3 else 3))
         obj = XObj(eb, dict(Ne=1, nPe=nPe))
         obj.attrs["Get_Elements_Tag"] = lambda tag: [0]
         bs = SimpleNamespace(dof_n=dof_n, beams=[beam], dim=2 if dof_n == 3 else 3)
